@@ -620,6 +620,10 @@ var c17Texts = []string{
 var c17TextRunes = []rune("abcXYZ019 -_:.,+'\"äöüÉж口座円💰́")
 
 func drawC17Text(t *rapid.T) string {
+	if gen.Rare(t, "longText", 4) {
+		// an account segment or description longer than any column a terminal shows whole
+		return strings.Repeat(rapid.SampledFrom([]string{"Sammelkonto", "Zürich", "口座", "W", "ab "}).Draw(t, "longTok"), rapid.IntRange(8, 40).Draw(t, "longN"))
+	}
 	if rapid.IntRange(0, 9).Draw(t, "textKind") < 7 {
 		return rapid.SampledFrom(c17Texts).Draw(t, "text")
 	}
